@@ -467,3 +467,99 @@ func (p *Prog) EnclosingFunc(pos token.Pos) *Func {
 	}
 	return best
 }
+
+// OnlyAfterSuccess reports whether node target is reached from the node of
+// call only on paths on which the call's boolean result (comma-ok / found
+// flag) was tested and found true. It is OnlyVia(target, CheckOf(call).Succ)
+// made path-sensitive in the flag variable: the flag's value is tracked along
+// each path (narrowed at tests, forgotten at other assignments), so a flag
+// that is re-used — `v, ok := lookup(); if ok { _, ok = other() }; if !ok
+// { break }` — is handled: on the path where the lookup failed the second test
+// cannot pass. Falls back to the edge criterion when the result is not bound
+// to a boolean variable.
+func (f *Func) OnlyAfterSuccess(call *ast.CallExpr, target *cfgx.Node) bool {
+	chk := f.CheckOf(call)
+	if f.OnlyVia(target, chk.Succ) {
+		return true
+	}
+	g := f.Graph()
+	cn := g.NodeContaining(call.Pos())
+	if cn == nil {
+		return false
+	}
+	// the flag: last left-hand side of the assignment holding the call
+	var flag types.Object
+	switch s := cn.AST.(type) {
+	case *ast.AssignStmt:
+		if len(s.Rhs) == 1 && ast.Unparen(s.Rhs[0]) == ast.Expr(call) && len(s.Lhs) >= 2 {
+			flag = f.ObjOf(s.Lhs[len(s.Lhs)-1])
+		}
+	}
+	if flag == nil {
+		return false
+	}
+	if b, ok := flag.Type().Underlying().(*types.Basic); !ok || b.Kind() != types.Bool {
+		return false
+	}
+	// state bits: 0-1 value of the flag (0 unknown, 1 true, 2 false); 2-3 outcome of the lookup (0 unknown, 1 ok, 2 failed);
+	// bit 4: the flag currently holds the lookup's outcome
+	const (
+		valMask = 3
+		okShift = 2
+		bound   = 1 << 4
+	)
+	bad := false
+	var start []*cfgx.Visit
+	for _, e := range cn.Succs {
+		start = append(start, cfgx.StartAfter(e, bound))
+	}
+	g.Explore(start, cfgx.Walker{
+		AtNode: func(n *cfgx.Node, st cfgx.State) (cfgx.State, bool) {
+			if n == target {
+				if (st>>okShift)&3 != 1 {
+					bad = true
+				}
+				return st, false
+			}
+			if n == cn {
+				return st, false // next iteration: a new lookup
+			}
+			if n.AST != nil {
+				for _, w := range f.WritesIn(n.AST, false) {
+					if f.ObjOf(w.LHS) != flag {
+						continue
+					}
+					st &^= valMask | bound
+					if w.RHS != nil {
+						if tv, ok := f.Info().Types[w.RHS]; ok && tv.Value != nil {
+							if tv.Value.String() == "true" {
+								st |= 1
+							} else if tv.Value.String() == "false" {
+								st |= 2
+							}
+						}
+					}
+				}
+			}
+			return st, true
+		},
+		OnEdge: func(e *cfgx.Edge, st cfgx.State) (cfgx.State, bool) {
+			if e.Cond == nil || (e.Kind != cfgx.True && e.Kind != cfgx.False) || f.ObjOf(e.Cond) != flag {
+				return st, true
+			}
+			want := cfgx.State(2)
+			if e.Kind == cfgx.True {
+				want = 1
+			}
+			if cur := st & valMask; cur != 0 && cur != want {
+				return st, false
+			}
+			st = st&^valMask | want
+			if st&bound != 0 {
+				st = st&^(3<<okShift) | want<<okShift
+			}
+			return st, true
+		},
+	})
+	return !bad
+}
